@@ -69,8 +69,8 @@ ASSUMPTIONS = [
     'Origin/MED/LocalPreference.from_int, AS2Path.make_aspath as static.parser.as_path calls it, Aggregator.make_aggregator, '
     'Communities().add, LargeCommunities().add, ExtendedCommunities().add, NextHop + IPv4/IPv6) on symbolic values; numerals '
     'through the real tokenisers are property C18',
-    'the operator prefix has no host bits beyond the mask (static.parser.prefix refuses others); the obligation compares the '
-    'first <mask> bits, trailing bits of the last octet are free (RFC 4271 4.3)',
+    'all prefix octets are symbolic (host bits beyond the mask are not constrained although static.parser.prefix refuses them); '
+    'the obligation compares the first <mask> bits, trailing bits of the last octet on the wire are free (RFC 4271 4.3)',
     'extended community type/subtype octets are concrete (00 02 route-target, 00 03 route-origin), the 6 value octets symbolic',
     'session AS numbers, addresses and capability sets are concrete per session shape (kits.session, real OPEN exchange); '
     'Negotiated fields are never overwritten',
@@ -164,7 +164,8 @@ def mk_session(fam, kind, asn4, addpath, extnh, extmsg, v6_transport=False, rout
 
 def session_sane(ctx, neg, facts, fam):
     """The session the real OPEN flow produced is the shape the unit asked for (otherwise the unit is vacuous)."""
-    ok = (bool(neg.asn4) == facts['asn4'] and int(neg.msg_size) == facts['msg_size']
+    ok = (neg.validate(neg.neighbor) is None  # the real acceptance test of the OPEN pair (peer AS, router-id, hold time)
+          and bool(neg.asn4) == facts['asn4'] and int(neg.msg_size) == facts['msg_size']
           and bool(neg.addpath.send(AFI(fam['afi']), SAFI(fam['safi']))) == facts['addpath']
           and (fam['afi'], fam['safi']) in [(int(a), int(s)) for a, s in neg.families]
           and (not facts['extnh'] or (fam['afi'], fam['safi'], 2) in [(int(a), int(s), int(n)) for a, s, n in neg.nexthop]))
@@ -573,7 +574,8 @@ def decode(ctx, body, facts, fam, d):
 
 
 def pick_shape(ctx, tier, fam, kind):
-    asn4 = True if kind == 'ebgp-peer4' else ctx.pick('peer-asn4', [True, False])
+    # a peer whose AS needs four octets necessarily speaks RFC 6793 (a 2-octet speaker cannot own such a number)
+    asn4 = True if KINDS[kind][1] > 65535 else ctx.pick('peer-asn4', [True, False])
     ap = ctx.pick('add-path', ['off', 'send', 'send-no-id', 'off-with-id'])
     addpath = ap in ('send', 'send-no-id')
     has_pid = ap in ('send', 'off-with-id')
